@@ -45,8 +45,13 @@ MATERIALS = {
 def patch(out, rid, fam, mat, rng, n):
     dim, conv, Reg = FAMILIES[fam]
     base = fem.Cube(n=n) if dim == 3 else fem.Rectangle(n=n)
-    mesh = conv(distort(base, rng))          # interior corner points perturbed on the 1/16 lattice, mid-points stay centroids
-    region = Reg(mesh)
+    # interior corner points perturbed on the 1/16 lattice, mid-points stay centroids; the property presupposes a valid mesh
+    # (positive volumes): perturbations that (nearly) collapse a simplex are re-drawn
+    for _ in range(20):
+        mesh = conv(distort(base, rng))
+        region = Reg(mesh)
+        if region.dV.min() > 0.2 * region.dV.mean():
+            break
     cls = fem.Field if dim == 3 else fem.FieldPlaneStrain
     f = fem.FieldContainer([cls(region, dim=dim)])
     H16 = rng.randint(-2, 3, size=(dim, dim))
@@ -57,8 +62,11 @@ def patch(out, rid, fam, mat, rng, n):
     ub = X @ H.T
     b = {"all": fem.Boundary(f[0], mask=np.tile(onb.reshape(-1, 1), dim), value=ub[onb].ravel())}
     dof0, dof1 = fem.dof.partition(f, b)
-    ext0 = fem.dof.apply(f, b, dof0)
-    res = fem.newtonrhapson(items=[fem.SolidBody(MATERIALS[mat](), f)], dof0=dof0, dof1=dof1, ext0=ext0, verbose=0, tol=1e-10, maxiter=12)
+    solid = fem.SolidBody(MATERIALS[mat](), f)
+    for frac in (0.25, 0.5, 0.75, 1.0):          # the prescribed map is applied in four increments (continuation)
+        b["all"].update(frac * ub[onb].ravel())
+        ext0 = fem.dof.apply(f, b, dof0)
+        res = fem.newtonrhapson(items=[solid], dof0=dof0, dof1=dof1, ext0=ext0, verbose=0, tol=1e-10, maxiter=12)
     F = res.x.extract()[0][:dim, :dim]
     X16 = np.rint(X * 32)             # mid-points of perturbed edges lie on the 1/32 lattice; law uses 16ths: log 2 * X16
     out.write({"id": rid, "kind": "patch", "nt": True, "dim": dim, "H16": qi(H16), "X16": qi(np.rint(X * 16 * 16)), "xden": 256,
